@@ -240,7 +240,10 @@ func genC11(env *core.Env, emit func(core.Case)) {
 	nlists := env.Pick(300, 5000)
 	for i := 0; i < nlists; i++ {
 		n := rng.IntN(9)
-		big := i < 6 // lists around the 16-bit length limit: 65535 bytes of configs fit, 65536 and more do not
+		// lists around the 16-bit length limit (65535 bytes of configs fit, 65536 and more do not), and lists
+		// whose length prefix happens to read like something else: 0xfe0d (the ECHConfig version), 0x0020
+		// (the KEM id), 0xfe0d-4 (a config's own length field when the list holds just that config)
+		big := i < 10
 		var cfgs []ech.Config
 		var raw [][]byte
 		for j := 0; j < n && !big; j++ {
@@ -249,7 +252,7 @@ func genC11(env *core.Env, emit func(core.Case)) {
 			raw = append(raw, c)
 		}
 		if big {
-			target := []int{65535, 65536, 65537, 65800, 2 * 65536, 3*65536 + 11264}[i]
+			target := []int{65535, 65536, 65537, 65800, 2 * 65536, 3*65536 + 11264, 0xfe0d, 0xfe0d - 4, 0xfe0d + 4, 0x0100 + 0x0d}[i]
 			total := 0
 			for total < target {
 				room := target - total
